@@ -56,7 +56,7 @@ class listingtable(object):
         return repr(self.column_name) + '\n' + repr(self._data)
 
     def __getitem__(self,key):
-        if isinstance(key,int):
+        if isinstance(key, (int, np.integer)): # (row index, plain or numpy integer)
             return dict(zip(['key'] + self.column_name, [self.row_name[key]] +
                             list(self._data[key,:])))
         else:
